@@ -161,6 +161,7 @@ def compare(src, m, facts):
             if n.is_definition() != (d is not None):
                 return ('is-definition-inconsistent', repr(n)), info
     info['definitions'] = len(a)
+    deferred = None
     if a != set(p):
         for pos in sorted(a ^ set(p)):
             leaf = leaf_starting_at(m, pos)
@@ -175,8 +176,12 @@ def compare(src, m, facts):
                     and len(leaf.parent.children) > 1 and leaf.parent.children[1] == ':=':
                 tag = 'walrus-in-call-argument'
             line = src.split('\n')[pos[0] - 1]
-            return ('%s:%s' % (side, tag), 'name %r at %r: CPython binds=%r parso is_definition=%r | %s'
-                    % (leaf, pos, pos in a, pos in p, short(line, 100))), info
+            f = ('%s:%s' % (side, tag), 'name %r at %r: CPython binds=%r parso is_definition=%r | %s'
+                 % (leaf, pos, pos in a, pos in p, short(line, 100)))
+            if tag == 'walrus-in-call-argument':
+                deferred = deferred or f       # listed finding: keep comparing everything else
+                continue
+            return f, info
     # ---- index parso scopes ------------------------------------------------------------------------
     pf, pc, pl = {}, {}, {}
     imports = []
@@ -335,7 +340,7 @@ def compare(src, m, facts):
             return ('import-aliases', 'line %d: parso %r, CPython %r' % (a_node.lineno, got_alias, exp_alias)), info
         if exp_alias:
             info['feats'].add('import-alias')
-    return None, info
+    return deferred, info
 
 
 class C14(Prop):
